@@ -253,3 +253,117 @@ def ctTranslateBalanced (l : Level) (a b : Ct) (sub : Bool) : R Ct := do
     ctTranslate l a' b' sub
 
 end HC
+
+namespace HC
+
+/-! ### decision logic of the level-walk entry points, of the CKKS scale bookkeeping and of the `multiply_plain` dispatch (translator phase 4g:
+    the skeletons generated from src/evaluator.rs into Gen/EvalFns.lean / Gen/EvalCtFns.lean are proved equal to these) -/
+
+/-- which internal routine one step down the chain runs: `mod_switch_scale_to_next_internal` (`modSwitchScaleNext`) or
+    `mod_switch_drop_to_next_internal` (`modSwitchDropNext`) -/
+inductive SwitchKind where
+  | scale | drop
+  deriving DecidableEq, Repr
+
+def SwitchKind.code : SwitchKind → Nat
+  | .scale => 1
+  | .drop => 2
+
+/-- the step of the model behind a kind -/
+def SwitchKind.step : SwitchKind → Level → Ct → R Ct
+  | .scale => modSwitchScaleNext
+  | .drop => modSwitchDropNext
+
+/-- `mod_switch_to_next`: BFV and BGV divide by the dropped prime, CKKS drops it -/
+def modSwitchNextKind : Scheme → SwitchKind
+  | .bfv | .bgv => .scale
+  | .ckks => .drop
+
+/-- `mod_switch_to_next` on chain indices: an invalid ciphertext and the last level (chain index 0) are refused; otherwise the scheme's
+    routine runs and the ciphertext arrives one index down -/
+def modSwitchToNextPlan (valid : Bool) (cur : Nat) (s : Scheme) : R (SwitchKind × Nat) :=
+  if valid = false ∨ cur = 0 then .error .refused else pure (modSwitchNextKind s, cur - 1)
+
+/-- `rescale_to_next`: as above, CKKS only, always the dividing routine -/
+def rescaleToNextPlan (valid : Bool) (cur : Nat) (s : Scheme) : R (SwitchKind × Nat) :=
+  if valid = false ∨ cur = 0 ∨ s ≠ .ckks then .error .refused else pure (SwitchKind.scale, cur - 1)
+
+/-- `rescale_to`: an invalid ciphertext, a target above the current level and every scheme but CKKS are refused - ALSO when the target is
+    the current level -; otherwise the level walk `switchSteps` (every step is `modSwitchScaleNext`, cf. `c05u_switchTo`) -/
+def rescaleToPlan (valid : Bool) (cur tgt : Nat) (s : Scheme) : R (List Nat) :=
+  if valid = false ∨ s ≠ .ckks then .error .refused else switchSteps cur tgt
+
+/-- the refusals of `mod_switch_drop_to_next_internal` (CKKS `mod_switch_to_next`): CKKS in coefficient form, no next level, and a scale
+    that does not fit the level the ciphertext ARRIVES at (`scaleOkNext` = `is_scale_within_bounds(scale, next level)`, for CKKS
+    `ckksScaleOk scale (bit count of the next level's modulus)`) -/
+def modSwitchDropDecision (s : Scheme) (ntt hasNext scaleOkNext : Bool) : R Unit :=
+  if (s = .ckks ∧ ntt = false) ∨ hasNext = false ∨ scaleOkNext = false then .error .refused else pure ()
+
+/-- CKKS bookkeeping of a ciphertext product (`ckks_multiply`, `ckks_square`): both operands in NTT form, the destination size
+    `n1 + n2 - 1` passes `Ciphertext::resize`, the recorded scale becomes the PRODUCT of the operands' scales (second component 1 = "one
+    product recorded") and must be within the bounds of the OPERANDS' level (`okProd`; for CKKS `ckksScaleOk (s1 * s2) bits(level)`,
+    the rule of `c03k_opMul`) -/
+def ckksProductBookkeeping (ntt1 ntt2 : Bool) (n1 n2 : Nat) (okProd : Bool) : R (Nat × Nat) :=
+  if ntt1 = false ∨ ntt2 = false then .error .refused
+  else if ctResizeRefuses (n1 + n2 - 1) then .error .refused
+  else if okProd = false then .error .refused
+  else pure (n1 + n2 - 1, 1)
+
+/-- the scale rule at the end of `multiply_plain_ntt` / `multiply_plain_normal`: only CKKS records the product (and checks it, AFTER the
+    multiplication, against the ciphertext's level); result = how many products the scale slot has absorbed -/
+def mulPlainScaleRule (s : Scheme) (okProd : Bool) : R Nat :=
+  if s = .ckks then (if okProd then pure 1 else .error .refused) else pure 0
+
+/-- the steps `multiply_plain_inplace` is composed of -/
+inductive PlainStep where
+  | mulNtt | mulNormal | plainToNtt | ctToNtt | ctFromNtt
+  deriving DecidableEq, Repr
+
+def PlainStep.code : PlainStep → Nat
+  | .mulNtt => 1 | .mulNormal => 2 | .plainToNtt => 3 | .ctToNtt => 4 | .ctFromNtt => 5
+
+/-- `multiply_plain_inplace`: what runs for the four combinations of representations -/
+def multiplyPlainPlan (ctNtt ptNtt : Bool) : List PlainStep :=
+  match ctNtt, ptNtt with
+  | true, true => [.mulNtt]
+  | false, false => [.mulNormal]
+  | true, false => [.plainToNtt, .mulNtt]
+  | false, true => [.ctToNtt, .mulNtt, .ctFromNtt]
+
+/-- `transform_to_ntt_inplace` / `transform_from_ntt_inplace` (full, reduced transforms of every component) -/
+def ctToNtt (l : Level) (a : Ct) : R Ct :=
+  if a.ntt then .error .refused else pure { a with polys := a.polys.map (rnsNtt l), ntt := true }
+def ctFromNtt (l : Level) (a : Ct) : R Ct :=
+  if !a.ntt then .error .refused else pure { a with polys := a.polys.map (rnsIntt l), ntt := false }
+
+/-- `multiply_plain_inplace` with an NTT-form plaintext, for both representations of the ciphertext -/
+def ctMultiplyPlain (l : Level) (a : Ct) (p : RnsPoly) : R Ct :=
+  if a.ntt then ctMultiplyPlainNtt l a p
+  else do
+    let a' ← ctToNtt l a
+    let r ← ctMultiplyPlainNtt l a' p
+    ctFromNtt l r
+
+/-- running a plan whose steps are all modelled (NTT-form plaintext) -/
+def runPlainPlan (l : Level) (p : RnsPoly) : List PlainStep → Ct → R Ct
+  | [], a => pure a
+  | .mulNtt :: t, a => do let r ← ctMultiplyPlainNtt l a p; runPlainPlan l p t r
+  | .ctToNtt :: t, a => do let r ← ctToNtt l a; runPlainPlan l p t r
+  | .ctFromNtt :: t, a => do let r ← ctFromNtt l a; runPlainPlan l p t r
+  | _ :: _, _ => .error .other
+
+/-- the route `multiply_plain_normal` (coefficient-form ciphertext and plaintext) takes, as step codes (tools/rs2lean.py, `SK_MUL_PLAIN_NORMAL`):
+    a plaintext with ONE non-zero coefficient is a monomial multiplication (13; for a "negative" coefficient without the fast plain lift the
+    coefficient is lifted to every modulus first: 10 lift, 11 RNS decompose, 12 per-modulus monomial); otherwise the plaintext is lifted
+    (22 fast / 20, 21 multi-precision + decompose), transformed (23), the ciphertext transformed lazily (24), multiplied (25) and transformed
+    back with the FULL inverse transform (26) -/
+def multiplyPlainNormalRoute (nonzero : Nat) (monoUpper fastLift : Bool) : List Nat :=
+  if nonzero = 1 then (if monoUpper = true ∧ fastLift = false then [10, 11, 12] else [13])
+  else (if fastLift then [22] else [20, 21]) ++ [23, 24, 25, 26]
+
+/-- route, then the scale rule (`mulPlainScaleRule`, at BOTH exits of the function); the last entry is 100 + number of products recorded -/
+def multiplyPlainNormalPlan (nonzero : Nat) (monoUpper fastLift : Bool) (s : Scheme) (okProd : Bool) : R (List Nat) := do
+  let sc ← mulPlainScaleRule s okProd
+  pure (multiplyPlainNormalRoute nonzero monoUpper fastLift ++ [100 + sc])
+
+end HC
